@@ -41,6 +41,8 @@ THEOREMS = [
     "Opacus.C20.raw_count_noninterference_adaclip",
     "Opacus.C20.raw_count_noninterference_adaclip_skip",
     "Opacus.C20.raw_count_noninterference_ghost",
+    "Opacus.C20.raw_count_noninterference_adaclip_run",
+    "Opacus.C20.raw_count_noninterference_ghost_run",
     "Opacus.C20.charged_sigma_le_nominal_adaclip",
     "Opacus.C20.charged_sigma_le_nominal_ghost",
     "Opacus.C20.adaclip_charges_inflated",
@@ -132,7 +134,7 @@ def gen_case(rng, impl, max_steps):
     C = C0
     for k in range(n):
         if impl == "ghost":
-            B = rng.choice([4, 8, 11, 12, 16, 21, 32, 40])
+            B = rng.choice([b for b in [4, 8, 11, 12, 16, 21, 32, 40] if b > 10 * cfg["sigma"] or rng.random() < 0.08])
             if rng.random() < 0.05:
                 B = rng.choice([0, 1, 2, 3, 5, 10])  # may trip `batch_size > 10 σ0`
             sb = B / 20.0
@@ -564,7 +566,7 @@ def run_cases(ctx, cases, variants, known, tol=TOL, tag=""):
         else:
             ctx.mismatch("adaclip" if c["impl"] == "ada" else "ghost-adaptive", c,
                          {"construct": res[0], "steps": [strip(o) for o in outs]}, replies[a:a + n],
-                         oracle=lambda cc: oracle_first(cc, known), note=bad)
+                         oracle=lambda cc: oracle_first(cc, known), note=bad + (" [" + tag + "]" if tag else ""))
 
 
 def small_scope_cases():
@@ -591,7 +593,7 @@ def run(ctx):
         ctx.variant.update(variants)
         ctx.log("variants implemented by this tree:", variants)
         # correspondence
-        n = ctx.n(160, 4000)
+        n = ctx.n(160, 10000)
         cases = []
         for i in range(n):
             impl = "ghost" if i % 5 in (1, 3) else "ada"
@@ -613,7 +615,7 @@ def run(ctx):
             for f in oracle_all(w):
                 ctx.property_failure(f[0], f[1], f[2])
         # failing-input search with the property oracle
-        for i in range(ctx.n(60, 1500)):
+        for i in range(ctx.n(60, 3000)):
             impl = "ghost" if i % 3 == 1 else "ada"
             c = gen_case(ctx.rng, impl, ctx.n(5, 10))
             ctx.count("search:rule+accounting")
@@ -627,24 +629,26 @@ def run(ctx):
 
 
 def replay(ctx, rp):
-    with rig.default_dtype(torch.float64):
+    known = {f["key"] for f in ctx.findings if f.get("status") == "known"}
+    dt = torch.float32 if "float32" in str(rp.get("note", "")) + str(rp.get("dtype", "")) else torch.float64
+    with rig.default_dtype(dt):
         c = rp.get("failing_input") or rp.get("case")
         fs = oracle_all(c) + nonint_oracle(c, 7)
         want = rp.get("key")
-        hit = [f for f in fs if want is None or f[0] == want] or fs
+        hit = [f for f in fs if f[0] == want] if want else [f for f in fs if f[0] not in known]
         if hit:
             for f in hit:
                 print("REPRODUCED:", f[0], f[1])
                 ctx.violations.append(f[0])
             return
-        # correspondence break without a property failure: re-run the comparison
-        variants = detect_variants(ctx)
-        res = run_real(c)
-        norms = [o["norms"] for o in res[1]] if res[0] == "ok" else []
-        replies = ctx.lean_driver("C20", model_lines(c, variants, norms))
-        bad = compare_case(c, res[0], res[1] if res[0] == "ok" else [], replies)
-        if bad:
-            print("REPRODUCED: correspondence break:", bad)
-            ctx.violations.append("corr")
-            return
+        if rp.get("kind") == "correspondence-break":
+            variants = detect_variants(ctx)
+            res = run_real(c)
+            norms = [o["norms"] for o in res[1]] if res[0] == "ok" else []
+            replies = ctx.lean_driver("C20", model_lines(c, variants, norms))
+            bad = compare_case(c, res[0], res[1] if res[0] == "ok" else [], replies, 2e-5 if dt == torch.float32 else TOL)
+            if bad:
+                print("REPRODUCED: correspondence break:", bad)
+                ctx.violations.append("corr")
+                return
         print("not reproduced on this tree")
